@@ -1,6 +1,6 @@
 #![no_main]
-//! bytes -> decision stream of the type-directed payload generator -> (hand-written catalogue
-//! type, payload, answer script); the semantic oracles of C01, C03, C04, C12 (and C02 for
+//! bytes -> decision stream of the type-directed payload generator -> (catalogue type: hand-written
+//! or generated, payload, answer script); the semantic oracles of C01, C03, C04, C12 (and C02 for
 //! modelled types) are evaluated inside the target.
 use dv_core::entry::Src;
 use dv_core::genp::{Gen, GenCfg};
@@ -52,7 +52,10 @@ fn violation(prop: &str, sig: &str, what: &str, ty: &str, payload: &dv_core::pv:
 fuzz_target!(|data: &[u8]| {
     let reg = REG.get_or_init(|| {
         std::panic::set_hook(Box::new(|_| {}));
-        dv_core::catalogue::all_hand()
+        // hand-written catalogue plus the randomly generated derive inputs of the current program set
+        let mut v = dv_core::catalogue::all_hand();
+        v.extend(dv_generated::entries().into_iter().map(|e| (e, true)));
+        v
     });
     if data.len() < 4 {
         return;
@@ -79,7 +82,7 @@ fuzz_target!(|data: &[u8]| {
     if let Err((sig, what)) = dv_core::oracles::c04(e, &payload, src, &out) {
         violation("C04", &sig, &what, &e.name, &payload, &script, src);
     }
-    if let Err((sig, what)) = dv_core::oracles::c03_random(&out) {
+    if let Err((sig, what)) = dv_core::oracles::c03_random(e, &payload, src, &out) {
         violation("C03", &sig, &what, &e.name, &payload, &script, src);
     }
     if *modelled && !payload.has_dup_keys() && !payload.has_nonfinite() {
